@@ -852,11 +852,24 @@ def rule_shape_dispatch(chk, prog):
     f = prog.func(f'{CS}.{fname}')
     ev = sym.Evaluator(prog, sym.Options(opaque={f'{CS}.{getter}'}))
     v, _, env = ev.run(f)
-    fi, cenv = ev.get_func(env['fn']) if 'fn' in env else (None, None)
-    chk.require(fi is not None, f'{CS}.{fname}: the per-leaf dispatch function is no longer bound to `fn`')
-    b, _, _ = ev.run(fi, closure=cenv)
-    x = S(fi.param_names()[0])
-    by_shape = b.k == 'phi' and b.a[1] == x and sym.contains(b.a[0], lambda t: t.k == 'attr' and t.a[1] == 'shape' and t.a[0] == x) and sym.contains(b.a[2], lambda t: t.k == 'call' and util.callee_name(t) == tr)
+    # the per-leaf dispatch is whichever nested function returns its argument unchanged on a shape test and the transform otherwise
+    by_shape = False
+    nested = 0
+    for key in list(ev.lambdas):
+      fi, cenv = ev.lambdas[key]
+      if fi.parent is not f or not fi.param_names():
+        continue
+      nested += 1
+      try:
+        b, _, _ = ev.run(fi, closure=cenv)
+      except Exception:   # noqa: BLE001
+        continue
+      x = S(fi.param_names()[0])
+      if b.k == 'phi' and sym.contains(b.a[0], lambda t: t.k == 'attr' and t.a[1] == 'shape' and t.a[0] == x):
+        has_tr = lambda z: sym.contains(z, lambda t: t.k == 'call' and util.callee_name(t) == tr)
+        if (b.a[1] == x and has_tr(b.a[2])) or (b.a[2] == x and has_tr(b.a[1])):
+          by_shape = True
+    chk.require(nested > 0, f'{CS}.{fname}: no per-leaf function found')
     sites.append((fname, f, by_shape))
   if not any(bs for _, _, bs in sites):
     for fname, f, _ in sites:
